@@ -287,23 +287,18 @@ func (w *TimingWheel) moveTask(task baseEntry) {
 		return
 	}
 
+	// 旧条目所在槽位相对 tickedPos 的位置决定了它下次被扫描的时间，
+	// 原地改写 circle/diff 会使任务晚一圈（或提前）触发；
+	// 统一为：作废旧条目，按新延迟重新入槽。
 	pos, circle := w.getPositionAndCircle(task.delay)
-	if pos > timer.pos {
-		timer.item.circle = circle
-		timer.item.diff = pos - timer.pos
-	} else if circle > 0 {
-		circle--
-		timer.item.circle = circle
-		timer.item.diff = w.numSlots + pos - timer.pos
-	} else {
-		timer.item.removed = true
-		newItem := &timingEntry{
-			baseEntry: task,
-			value:     timer.item.value,
-		}
-		w.slots[pos].PushBack(newItem)
-		w.setTimerPosition(pos, newItem)
+	timer.item.removed = true
+	newItem := &timingEntry{
+		baseEntry: task,
+		value:     timer.item.value,
+		circle:    circle,
 	}
+	w.slots[pos].PushBack(newItem)
+	w.setTimerPosition(pos, newItem)
 }
 
 func (w *TimingWheel) getPositionAndCircle(d time.Duration) (pos, circle int) {
